@@ -167,6 +167,11 @@ HAND = {
                                           dict(a="tick", **{"await": "opack:0"}), dict(a="mute", w=0), dict(a="advance"), dict(a="heartbeat"),
                                           dict(a="advance"), dict(a="heartbeat"), dict(a="heartbeat"), dict(a="recover"), dict(a="unmute", w=0),
                                           dict(a="release"), dict(a="heartbeat"), dict(a="killmember", mode="hang")],
+    # an operator in the middle of barrier alignment survives the loss of the other worker and is redeployed in place
+    "kill-barrier-partial": lambda W: ([dict(a="boot", workers=W), dict(a="checkpoint"), dict(a="hold", key="barrier:1->0"),
+                                        dict(a="tick", **{"await": "barrier:1->0"}), dict(a="kill", w=1, mode="hang"), dict(a="release")] if W > 1 else
+                                       [dict(a="boot", workers=1), dict(a="checkpoint"), dict(a="hold", key="srack:0"),
+                                        dict(a="tick", **{"await": "srack:0"}), dict(a="kill", w=0, mode="hang"), dict(a="release")]),
     "kill-all": lambda W: [dict(a="boot", workers=W), dict(a="checkpoint")] + [dict(a="kill", w=i, mode="fail") for i in range(W)],
     "stop-then-kill-replacement": lambda W: [dict(a="boot", workers=W), dict(a="checkpoint"), dict(a="stop", w=0), dict(a="recover"),
                                              dict(a="tickpending"), dict(a="killmember", mode="hang")],
